@@ -432,7 +432,8 @@ func areaOtl(c *Ctx) {
 	nGpos := c.N * 15 / 100
 	nFL := c.N * 5 / 100
 	nGdef := c.N * 6 / 100
-	nLL := c.N - nCov - nCd - nGsub - nGpos - nFL - nGdef
+	nSL := c.N * 6 / 100
+	nLL := c.N - nCov - nCd - nGsub - nGpos - nFL - nGdef - nSL
 
 	// ---- coverage
 	special := [][]otlRun{
@@ -599,6 +600,11 @@ func areaOtl(c *Ctx) {
 	// ---- GDEF
 	for i := 0; i < nGdef; i++ {
 		otlGenGdef(c, i)
+	}
+
+	// ---- script lists
+	for i := 0; i < nSL; i++ {
+		otlGenSL(c, i)
 	}
 
 	// ---- feature lists
@@ -1575,6 +1581,206 @@ func otlGenGdef(c *Ctx, i int) {
 			c.Stat("gdef.mutation", mw)
 			o := c.Case(Verdict, "otl.gdef.read", "data="+hx(m), true)
 			c.Stat("gdef.read-outcome", outcomeClass(o))
+		}
+	}
+}
+
+// ---------------------------------------------------------------- script lists
+
+// otlParseSL builds the Go map from OpenType tag pairs with the library's own otfToBCP47.
+func otlParseSL(s string) gtab.ScriptListInfo {
+	sl := gtab.ScriptListInfo{}
+	if s == "" {
+		return sl
+	}
+	for _, t := range strings.Split(s, ",") {
+		q := strings.Split(t, ":")
+		lang := ""
+		if q[1] != "-" {
+			lang = string(mustHex(q[1]))
+		}
+		tag, err := gtab.VerifOtfToBCP47(string(mustHex(q[0])), lang)
+		if err != nil {
+			panic("bad tag in case line")
+		}
+		req, _ := strconv.Atoi(q[2])
+		f := &gtab.Features{Required: gtab.FeatureIndex(req)}
+		if q[3] != "-" {
+			for _, x := range strings.Split(q[3], ".") {
+				v, _ := strconv.Atoi(x)
+				f.Optional = append(f.Optional, gtab.FeatureIndex(v))
+			}
+		}
+		sl[tag] = f
+	}
+	return sl
+}
+
+func otlShowSL(sl gtab.ScriptListInfo) string {
+	type ent struct{ script, lang, rest string }
+	var es []ent
+	for tag, f := range sl {
+		sc, lg, err := gtab.VerifBCP47ToOtf(tag)
+		if err != nil {
+			return "unconvertible-tag:" + tag.String()
+		}
+		opt := "-"
+		if len(f.Optional) > 0 {
+			q := make([]string, len(f.Optional))
+			for k, x := range f.Optional {
+				q[k] = strconv.Itoa(int(x))
+			}
+			opt = strings.Join(q, ".")
+		}
+		l := "-"
+		if lg != "" {
+			l = hx([]byte(lg))
+		}
+		es = append(es, ent{sc, lg, fmt.Sprintf("%s:%s:%d:%s", hx([]byte(sc)), l, f.Required, opt)})
+	}
+	sort.Slice(es, func(i, j int) bool {
+		if es[i].script != es[j].script {
+			return es[i].script < es[j].script
+		}
+		return es[i].lang < es[j].lang
+	})
+	parts := make([]string, len(es))
+	for i, e := range es {
+		parts[i] = e.rest
+	}
+	return strings.Join(parts, ",")
+}
+
+func init() {
+	ops["otl.sl.encode"] = func(f Fields) string {
+		return canonPanic(guard(func() string {
+			return "ok:" + otlShowBytes(gtab.VerifEncodeScriptList(otlParseSL(f["sl"])))
+		}))
+	}
+	ops["otl.sl.read"] = func(f Fields) string {
+		return canonPanic(guard(func() string {
+			sl, err := gtab.VerifReadScriptList(f.Hex("data"), 0)
+			if err != nil {
+				return errKind(err)
+			}
+			return "ok:" + otlShowSL(sl)
+		}))
+	}
+}
+
+var otlTagPairs [][2]string // (script, lang) pairs whose conversion round-trips in the library
+
+func otlInitTags() {
+	if otlTagPairs != nil {
+		return
+	}
+	var scripts, langs []string
+	for k := range gtab.VerifScriptBcp47() {
+		scripts = append(scripts, k)
+	}
+	for k := range gtab.VerifLangBcp47() {
+		langs = append(langs, k)
+	}
+	sort.Strings(scripts)
+	sort.Strings(langs)
+	langs = append([]string{""}, langs...)
+	for _, s := range scripts {
+		for _, l := range langs {
+			tag, err := gtab.VerifOtfToBCP47(s, l)
+			if err != nil {
+				continue
+			}
+			s2, l2, err := gtab.VerifBCP47ToOtf(tag)
+			if err == nil && s2 == s && l2 == l {
+				otlTagPairs = append(otlTagPairs, [2]string{s, l})
+			}
+		}
+	}
+}
+
+// otlGenSL writes the cases for one script list.
+func otlGenSL(c *Ctx, i int) {
+	otlInitTags()
+	r := c.Rng
+	c.Stat("sl.roundtripping-tag-pairs", bucket(len(otlTagPairs)))
+	nScripts := Pick(r, []int{0, 1, 1, 2, 3, 5})
+	what := "regular"
+	seen := map[[2]string]bool{}
+	var parts []string
+	add := func(s, l string, nOpt int) {
+		if seen[[2]string{s, l}] {
+			return
+		}
+		seen[[2]string{s, l}] = true
+		opt := "-"
+		if nOpt > 0 {
+			q := make([]string, nOpt)
+			for k := range q {
+				q[k] = strconv.Itoa(Pick(r, []int{0, 1, 2, 65534, r.Intn(300)}))
+			}
+			opt = strings.Join(q, ".")
+		}
+		lg := "-"
+		if l != "" {
+			lg = hx([]byte(l))
+		}
+		parts = append(parts, fmt.Sprintf("%s:%s:%d:%s", hx([]byte(s)), lg, Pick(r, []int{65535, 65535, 0, 3}), opt))
+	}
+	switch i {
+	case 0, 1: // the second script table starts at 65534 (written) / 65536 (refused)
+		// 2 + 12 = 14; script arab: 4 + 6 + 2k bytes with only a default language system
+		k := (65534 + 2*i - 14 - 10) / 2
+		add("arab", "", k)
+		add("latn", "", 2)
+		what = []string{"boundary-ok", "boundary-refused"}[i]
+	case 2, 3: // the second named language system starts at 65534 / 65536 inside its script table
+		// script table: 4 + 12 = 16; first LangSys 6 + 2k
+		k := (65534 + 2*(i-2) - 16 - 6) / 2
+		add("latn", "DEU ", k)
+		add("latn", "TRK ", 1)
+		what = []string{"boundary-ok", "boundary-refused"}[i-2]
+	default:
+		for a := 0; a < nScripts; a++ {
+			p := Pick(r, otlTagPairs)
+			s := p[0]
+			if r.Chance(2, 3) {
+				add(s, "", Pick(r, []int{0, 1, 2, 5}))
+			}
+			for b := r.Intn(4); b > 0; b-- {
+				q := Pick(r, otlTagPairs)
+				if q[1] != "" {
+					// same script, another language system (pairs are independent of each other)
+					if tag, err := gtab.VerifOtfToBCP47(s, q[1]); err == nil {
+						if s2, l2, err := gtab.VerifBCP47ToOtf(tag); err == nil && s2 == s && l2 == q[1] {
+							add(s, q[1], Pick(r, []int{0, 1, 3, 8}))
+						}
+					}
+				}
+			}
+		}
+	}
+	c.Stat("sl.kind", what)
+	c.Stat("sl.entries", bucket(len(parts)))
+	// the map is unordered: give the entries in a shuffled order
+	for k := len(parts) - 1; k > 0; k-- {
+		j := r.Intn(k + 1)
+		parts[k], parts[j] = parts[j], parts[k]
+	}
+	line := "sl=" + strings.Join(parts, ",")
+	out := c.Case(Verdict, "otl.sl.encode", line, len(parts) >= 2)
+	c.Stat("sl.encode-outcome", outcomeClass(out))
+	if !strings.HasPrefix(out, "ok:") {
+		return
+	}
+	b := gtab.VerifEncodeScriptList(otlParseSL(strings.TrimPrefix(line, "sl=")))
+	o := c.Case(Verdict, "otl.sl.read", "data="+hx(b), len(parts) >= 2)
+	c.Stat("sl.read-outcome", "encoded:"+outcomeClass(o))
+	if len(b) <= 4000 {
+		for k := 0; k < 3; k++ {
+			m, mw := otlMutate(r, b)
+			c.Stat("sl.mutation", mw)
+			o := c.Case(Verdict, "otl.sl.read", "data="+hx(m), true)
+			c.Stat("sl.read-outcome", "mutated:"+outcomeClass(o))
 		}
 	}
 }
